@@ -79,3 +79,83 @@ func VH_C13_select(n int, bestPing bool) {
 	zzvrt.Cover("dead-holds-newest", anyWorking && !vWorking(cs[0], max) && cs[0].seq == max)
 	zzvrt.ObserveInt("chosen", chosen.id)
 }
+
+// Wait-list protocol at critical-section granularity.  subscribe / unsubscribe / notifySubscribers all
+// run under the pool lock, so they are atomic with respect to each other; a waiter's only unlocked
+// actions are "receive from my channel" and "give up" (unsubscribe).  Bounded histories of `steps`
+// steps over two waiters, with the step kind, seqnos and heads symbolic:
+//   - no step performs a channel operation that would block while the pool lock is held
+//     (engine VC would-block-send / would-block-select);
+//   - a waiter whose target has been reported by the best connection finds a head >= target in its channel;
+//   - a registered waiter never gets the sentinel id 0 (the id returned on the fast path), so
+//     unsubscribing a fast-path caller can never remove somebody else's registration.
+func VH_C13_waitlist(steps int) {
+	p := New(BestPingStrategy)
+	best := &connection{id: 0, masterHeadUpdatedCh: p.masterHeadUpdatedCh}
+	best.masterHead.Seqno = zzvrt.NondetU32("head0")
+	p.conns = []conn{best}
+	p.bestConn = best
+	var ids [2]uint64
+	var chans [2]chan ton.BlockIDExt
+	var want [2]uint32
+	var live, registered [2]bool
+	for step := 0; step < steps; step++ {
+		op := zzvrt.NondetInt("op")
+		who := zzvrt.NondetInt("who")
+		zzvrt.Assume(op >= 0 && op <= 3 && who >= 0 && who <= 1)
+		w := 0
+		if who == 1 {
+			w = 1
+		}
+		switch op {
+		case 0: // a waiter arrives
+			if !live[w] {
+				want[w] = zzvrt.NondetU32("want")
+				head := best.masterHead.Seqno
+				id, ch := p.subscribe(want[w])
+				ids[w], chans[w], live[w] = id, ch, true
+				if head >= want[w] {
+					zzvrt.Assert("fast-path-has-head", len(ch) == 1)
+					registered[w] = false
+				} else {
+					registered[w] = true
+					zzvrt.Assert("registered-id-is-not-the-sentinel", id != 0)
+					other := 1 - w
+					zzvrt.Assert("ids-distinct", !(live[other] && registered[other]) || ids[other] != id)
+				}
+			}
+		case 1: // the best connection reports a newer head; the pool loop notifies the subscribers
+			h := zzvrt.NondetU32("h")
+			zzvrt.Assume(h > best.masterHead.Seqno)
+			best.masterHead.Seqno = h
+			var upd masterHeadUpdated
+			upd.Head.Seqno = h
+			upd.Conn = best
+			p.notifySubscribers(upd)
+			for i := 0; i < 2; i++ {
+				if live[i] && registered[i] && h >= want[i] {
+					zzvrt.Assert("reached-target-is-in-the-channel", len(chans[i]) == 1)
+				}
+			}
+		case 2: // a waiter takes what is in its channel
+			if live[w] && len(chans[w]) > 0 {
+				got := <-chans[w]
+				if registered[w] && best.masterHead.Seqno >= want[w] {
+					zzvrt.Assert("latest-head-delivered", got.Seqno >= want[w])
+				}
+			}
+		case 3: // a waiter leaves (done, timed out or cancelled): `defer p.unsubscribe(waitID)`
+			if live[w] {
+				p.unsubscribe(ids[w])
+				live[w] = false
+				other := 1 - w
+				if live[other] && registered[other] {
+					_, still := p.waitList[ids[other]]
+					zzvrt.Assert("other-waiter-still-registered", still)
+				}
+			}
+		}
+	}
+	zzvrt.Cover("two-waiters-registered", live[0] && live[1] && registered[0] && registered[1])
+	zzvrt.ObserveInt("waitlist", len(p.waitList))
+}
